@@ -175,7 +175,7 @@ struct expected {
     }
 
     template <typename F>
-    [[nodiscard]] constexpr auto or_else(F&& f) && requires(is_constructible_v<T, decltype(**this)>)
+    [[nodiscard]] constexpr auto or_else(F&& f) const& requires(is_constructible_v<T, decltype(**this)>)
     {
         using G = remove_cvref_t<invoke_result_t<F, decltype(error())>>;
         if (has_value()) { return G(etl::in_place, **this); }
@@ -183,7 +183,7 @@ struct expected {
     }
 
     template <typename F>
-    [[nodiscard]] constexpr auto or_else(F&& f) const&
+    [[nodiscard]] constexpr auto or_else(F&& f) &&
         requires(is_constructible_v<T, decltype(etl::move(**this))>)
     {
         using G = remove_cvref_t<invoke_result_t<F, decltype(etl::move(error()))>>;
